@@ -37,22 +37,37 @@ def run(ctx):
     with warnings.catch_warnings():
         warnings.simplefilter("ignore")
         np.seterr(all="ignore")
-        for case in range(10 if quick else 150):
-            cn = r.choice(["Transfer", "MassFunction"])
-            fw = realfuzz.class_by_name(cn)
-            keys_all = TRANSFER_KEYS if cn == "Transfer" else sorted(LISTS)
-            nl = r.choice([0, 1, 2, 2, 3, 3, 4] if not quick else [0, 1, 2, 2, 3])
-            keys = r.sample(keys_all, nl)
-            kw = dict(realfuzz.BASE[cn])
-            lists = {}
-            for k in keys:
-                vals = list(LISTS[k])
-                r.shuffle(vals)
-                ln = r.choice([1, 2, 2, 3]) if len(vals) >= 3 else r.choice([1, 2])
-                lists[k] = copy.deepcopy(vals[:ln])
-                kw[k] = lists[k] if r.random() < 0.5 else tuple(lists[k])
-            qs = r.sample(QUANTS[cn], r.randint(1, 2))
-            label_kind = r.choice(["display", "filename"])
+        # fixed calls first: two dict-valued lists sharing an inner key and overlapping values (labels differ only by position);
+        # a tuple-valued list next to a list-valued one
+        fixed = [("MassFunction", {"transfer_model": "BBKS", "hmf_model": "SMT"}, {"transfer_params": [{"a": 2.0}, {"a": 2.34}], "hmf_params": [{"a": 2.34}, {"a": 2.0}]}, ["dndm"], "display", False),
+                 ("MassFunction", {"transfer_model": "BBKS", "hmf_model": "SMT"}, {"transfer_params": [{"a": 2.0}, {"a": 2.34}], "hmf_params": [{"a": 2.34}, {"a": 2.0}]}, ["sigma"], "filename", False),
+                 ("MassFunction", {}, {"z": [0.0, 1.5], "hmf_model": ["PS", "SMT", "Warren"], "sigma_8": [0.8, 0.9]}, ["dndm"], "display", True)]
+        for case in range(len(fixed) + (10 if quick else 150)):
+            if case < len(fixed):
+                cn, extra, lists, qs, label_kind, tup_ = fixed[case]
+                extra_ = extra
+                fw = realfuzz.class_by_name(cn)
+                kw = dict(realfuzz.BASE[cn], **copy.deepcopy(extra))
+                lists = copy.deepcopy(lists)
+                for i_, (k, vs) in enumerate(lists.items()):
+                    kw[k] = tuple(vs) if (tup_ and i_ % 2 == 0) else vs
+            else:
+                extra_ = {}
+                cn = r.choice(["Transfer", "MassFunction"])
+                fw = realfuzz.class_by_name(cn)
+                keys_all = TRANSFER_KEYS if cn == "Transfer" else sorted(LISTS)
+                nl = r.choice([0, 1, 2, 2, 3, 3, 4] if not quick else [0, 1, 2, 2, 3])
+                keys = r.sample(keys_all, nl)
+                kw = dict(realfuzz.BASE[cn])
+                lists = {}
+                for k in keys:
+                    vals = list(LISTS[k])
+                    r.shuffle(vals)
+                    ln = r.choice([1, 2, 2, 3]) if len(vals) >= 3 else r.choice([1, 2])
+                    lists[k] = copy.deepcopy(vals[:ln])
+                    kw[k] = lists[k] if r.random() < 0.5 else tuple(lists[k])
+                qs = r.sample(QUANTS[cn], r.randint(1, 2))
+                label_kind = r.choice(["display", "filename"])
             call = {"framework": cn, "lists": {k: [realfuzz.show(v) for v in vs] for k, vs in lists.items()}, "quantities": qs, "label_kind": label_kind}
             try:
                 res = []
@@ -76,7 +91,7 @@ def run(ctx):
                 viol("labels-not-unique", f"{cn}: labels are not unique: {labels[:4]}", call)
             # values equal a fresh framework built with that combination
             for combo, label, quants, pv in (res if len(res) <= 6 else r.sample(res, 6)):
-                args = dict(realfuzz.BASE[cn])
+                args = dict(realfuzz.BASE[cn], **copy.deepcopy(extra_))
                 for k, vs in lists.items():
                     args[k] = copy.deepcopy(vs[0]) if len(vs) == 1 else None
                 for k, i in combo:
@@ -95,20 +110,25 @@ def run(ctx):
                     f"{idx[k]} {len(vs)} " + " ".join(str(i) for i in range(len(vs))) for k, vs in lists.items())
                 req_lines.append(line)
                 req_meta.append((";".join(",".join(f"{a}={b}" for a, b in sorted((idx[k], i) for k, i in c)) for c, *_ in res), call, "combos"))
-            # get_best_param_order vs the insertion-loop model, on the real index of a fast object
-            a = fw(**FAST[cn])
-            for q in qs:
-                getattr(a, q)
-            papr = getattr(a, "_" + cn + "__recalc_par_prop")
-            names = list(papr)
-            req_lines.append(f"ORDER {len(names)} " + " ".join(f"{i} {len(papr[n])}" for i, n in enumerate(names)))
-            real_order = get_best_param_order(fw, qs, **FAST[cn])
-            req_meta.append((" ".join(str(names.index(n)) for n in real_order), dict(call, what="get_best_param_order"), "order"))
-            if sorted(real_order) != sorted(names):
-                viol("order-not-permutation", f"get_best_param_order is not a permutation of all parameters", call)
-            nums = [len(papr[n]) for n in real_order]
-            if nums != sorted(nums, reverse=True):
-                viol("order-not-sorted", f"get_best_param_order is not ordered by number of dependants: {nums}", call)
+            # get_best_param_order vs the insertion-loop model, on the real index of a fast object; option keywords change the
+            # dependency graph, so the order is asked for again with some of them set (same class, same quantities)
+            for variant in ({}, {"use_splined_growth": True}, {"takahashi": False}):
+                fkw = dict(FAST[cn], **variant)
+                a = fw(**fkw)
+                for q in qs:
+                    getattr(a, q)
+                papr = getattr(a, "_" + cn + "__recalc_par_prop")
+                names = list(papr)
+                req_lines.append(f"ORDER {len(names)} " + " ".join(f"{i} {len(papr[n])}" for i, n in enumerate(names)))
+                real_order = get_best_param_order(fw, qs, **fkw)
+                vcall = dict(call, what="get_best_param_order", order_kwargs=str(variant))
+                req_meta.append((" ".join(str(names.index(n)) if n in names else "?" for n in real_order), vcall, "order"))
+                if sorted(real_order) != sorted(names):
+                    viol("order-not-permutation", f"get_best_param_order is not a permutation of all parameters", vcall)
+                    continue
+                nums = [len(papr[n]) for n in real_order]
+                if nums != sorted(nums, reverse=True):
+                    viol("order-not-sorted", f"get_best_param_order({cn}, {qs}, **{variant or 'fast kwargs'}) is not ordered by number of dependants: {nums}", vcall)
             if len(samples) < 3:
                 samples.append({"call": call, "n_results": len(res), "labels": labels[:3]})
     ans = lean_driver(req_lines)
